@@ -1,5 +1,7 @@
 import LeaspyVerif.Proto
 import LeaspyVerif.Model.Api
+import LeaspyVerif.Model.Dag
+import LeaspyVerif.Model.Footprint
 open LeaspyVerif LeaspyVerif.Proto LeaspyVerif.Api
 
 /-
@@ -11,6 +13,21 @@ request (one line = one whole call history on one object)
                   (`-` for fit / save / load, which return nothing)
         core[i] : call i changed (params, hyper, pop)
   The externals are symbolic (`symExt`): a returned value is the term recording everything it was computed from.
+
+request (one line = the footprint recorded during ONE real call, harness/footprint_c13.py)
+  footprint call=<est|mean|mode|scipy|sim> nodes=<kind:desc/kind:desc/…> params=<ids> hyper=<ids> pop=<ids> data=<ids> ind=<ids>
+            ops=<ev;ev;…>
+      node   kind h (hyper-parameter, not settable) | s (settable independent) | l (linked); desc = `dag.sorted_children` (ranks)
+      ev     s:<sid>:<node>:<0|1>  g:<sid>:<node>  r:<sid>  rp:<sid>  c:<src>:<dst>:<noauto>:<keepfork>  pc:<sid>  cl:<sid>
+             m:<sid>:<0|1>  b:<sid>  a:<name>  sh:<src>:<dst>:<node>  x:<sid>:<what>  k:<sid>:<node>  new:<sid>
+             *<r>*<p>  (run-length form: the p events just before are repeated r more times; expanded before anything is decided)
+      → touches=<0|1> first=<index>:<ev>|- writes=<0|1> bound=<sid> same=<0|1|-> resid=<0|1|-> attrs=<0|1> shared=<0|1> verdict=<0|1>
+        touches / writes : `Footprint.touchesOriginal` / `writesOriginal`;  bound, same, resid, attrs, shared : `Footprint.analyse`
+        (same / resid are `-` when nothing is known about the state bound at the end);  verdict : `Footprint.verdict` for the call
+  replay nodes=<kind:parents/…> (C01 syntax) params=… hyper=… pop=… data=… ind=… call=… ops=…
+      → the same history executed on shadow values through `Footprint.stepEv` (= `State.step`): conc=<0|1>
+        pure calls: state 0 has the same independent values, fork and mode, and every value that was cached;
+        mean / mode: the state bound at the end has the protected values of the original state 0 and no data / individual value
 -/
 
 def parseOp (i : Nat) (s : String) : Option (Call String) :=
@@ -37,6 +54,199 @@ def stepAll (shipped : Bool) : World String → List (Call String) → List (Boo
         if r'.2 == some v then "1" else "0"
     (r.1.obj.residual.isSome, same, r.1.obj.core != w.obj.core) :: stepAll shipped r.1 cs
 
+
+/-! ### footprints -/
+
+open LeaspyVerif.State LeaspyVerif.Footprint in
+def parseEv (s : String) : Option (Ev Nat Unit) :=
+  match s.splitOn ":" with
+  | ["s", sid, i, v] => do
+      let b ← parseBool v
+      some (.op (.set (← parseNat sid) (← parseNat i) (if b then some 1 else none)))
+  | ["g", sid, i] => do some (.op (.get (← parseNat sid) (← parseNat i)))
+  | ["r", sid] => do some (.op (.revert (← parseNat sid) none))
+  | ["rp", sid] => do some (.op (.revert (← parseNat sid) (some ())))
+  | ["c", a, b, x, y] => do some (.op (.clone (← parseNat a) (← parseNat b) (← parseBool x) (← parseBool y)))
+  | ["pc", sid] => do some (.op (.precompute (← parseNat sid)))
+  | ["cl", sid] => do some (.op (.clear (← parseNat sid)))
+  | ["m", sid, b] => do some (.op (.setMode (← parseNat sid) (← parseBool b)))
+  | ["b", sid] => do some (.bind (← parseNat sid))
+  | ["a", _] => some (.attr 0 0)
+  | ["sh", a, b, i] => do some (.shared (← parseNat a) (← parseNat b) (← parseNat i))
+  | ["x", sid, _] => do some (.havoc (← parseNat sid) none)
+  | ["k", sid, _] => do some (.havoc (← parseNat sid) none)
+  | ["new", sid] => do some (.havoc (← parseNat sid) none)
+  | _ => none
+
+/-- the events of a line: plain events, and `*<r>*<p>` = "the `p` events just before, `r` more times" (run-length form
+    written by the recorder for the loops of scipy_minimize; expanded here, before anything is decided) -/
+def parseEvents (toks : List String) : Option (List (Footprint.Ev Nat Unit) × List String) :=
+  let rec go (ts : List String) (acc : Array (Footprint.Ev Nat Unit)) (names : Array String) :
+      Option (Array (Footprint.Ev Nat Unit) × Array String) :=
+    match ts with
+    | [] => some (acc, names)
+    | t :: rest =>
+      if t.startsWith "*" then
+        match t.splitOn "*" with
+        | ["", r, p] => do
+          let r ← parseNat r
+          let p ← parseNat p
+          if p == 0 || p > acc.size then none else
+          let blk := acc.extract (acc.size - p) acc.size
+          let nblk := names.extract (names.size - p) names.size
+          let (acc', names') := (List.range r).foldl (fun (x : Array (Footprint.Ev Nat Unit) × Array String) _ =>
+            (x.1 ++ blk, x.2 ++ nblk)) (acc, names)
+          go rest acc' names'
+        | _ => none
+      else do
+        let e ← parseEv t
+        go rest (acc.push e) (names.push t)
+  (go toks #[] #[]).map (fun x => (x.1.toList, x.2.toList))
+
+def parseCall (s : String) : Option (Call (List (Option Nat))) :=
+  match s with
+  | "est" => some (.estimate [])
+  | "mean" => some (.persoMean [] [])
+  | "mode" => some (.persoMode [] [])
+  | "scipy" => some (.persoScipy [] [])
+  | "sim" => some (.simulate [] [])
+  | _ => none
+
+def parseClasses (args : List String) : Option Footprint.Classes := do
+  let l (k : String) : Option (List Nat) := (kv args k) >>= parseList parseNat
+  some { params := ← l "params", hyper := ← l "hyper", pop := ← l "pop", data := ← l "data", ind := ← l "ind" }
+
+def kindOf (k : String) : State.Kind :=
+  if k == "h" then .indep false else if k == "s" then .indep true else .linked
+
+/-- graph with the descendant table of the real DAG; only `n`, `kind`, `desc` are looked at by the analysis -/
+def mkFootGraph (nodes : List (String × List Nat)) : State.Graph Nat :=
+  let arr := nodes.toArray
+  { n := nodes.length
+    kind := fun i => match arr[i]? with | some nd => kindOf nd.1 | none => .indep false
+    parents := fun _ => []
+    fn := fun _ _ => 0
+    init := fun _ => none
+    order := []
+    desc := fun i => match arr[i]? with | some nd => nd.2 | none => []
+    anc := fun _ => [] }
+
+def parseFootNode (s : String) : Option (String × List Nat) :=
+  match s.splitOn ":" with
+  | [k, d] => do some (k, ← parseList parseNat d)
+  | _ => none
+
+open LeaspyVerif.Footprint in
+def handleFootprint (args : List String) : Option String := do
+  let call ← (kv args "call") >>= parseCall
+  let nodes ← (splitNE (← kv args "nodes") "/").mapM parseFootNode
+  let cls ← parseClasses args
+  let opsS ← kv args "ops"
+  let (evs, toks) ← parseEvents (splitNE opsS ";")
+  let g := mkFootGraph nodes
+  let touches := touchesOriginal evs
+  let first := match firstTouch evs with
+    | some i => s!"{i}:{toks.getD i "?"}"
+    | none => "-"
+  let writes := writesOriginal evs
+  let v := verdict g cls call evs
+  -- the abstract interpreter is only needed (and only run) for the calls that work on `model.state`
+  let needAnalysis := match call with | .persoMean _ _ | .persoMode _ _ => true | _ => writes
+  let (bound, same, resid, attrs, shared) :=
+    if needAnalysis then
+      let r := analyse g cls.prot Res.init evs
+      match r.abs.get r.bound with
+      | some a => (toString r.bound, fmtBool a.same, fmtBool (cls.resid.all (fun i => a.cleared.contains i)),
+                   fmtBool r.attrsWritten, fmtBool r.sharedSeen)
+      | none => (toString r.bound, "-", "-", fmtBool r.attrsWritten, fmtBool r.sharedSeen)
+    else ("0", "1", "-", "0", "0")
+  some s!"touches={fmtBool touches} first={first} writes={fmtBool writes} bound={bound} same={same} resid={resid} attrs={attrs} shared={shared} verdict={fmtBool v}"
+
+/-! ### the same history on shadow values -/
+
+structure RNode where
+  kind : String
+  parents : List Nat
+
+def parseRNode (s : String) : Option RNode :=
+  match s.splitOn ":" with
+  | [k, ps] => do some { kind := k, parents := ← parseList parseNat ps }
+  | _ => none
+
+def mkReplayGraph (nodes : List RNode) (r : Dag.Result) : State.Graph Nat :=
+  let arr := nodes.toArray
+  let desc := (Array.range nodes.length).map r.children
+  let anc := (Array.range nodes.length).map r.ancestors
+  { n := nodes.length
+    kind := fun i => match arr[i]? with | some nd => kindOf nd.kind | none => .indep false
+    parents := fun i => match arr[i]? with | some nd => nd.parents | none => []
+    fn := fun i ps => (ps.foldl (fun a b => (31 * a + b) % 1000003) (i + 7))
+    init := fun i => match arr[i]? with | some nd => if nd.kind == "h" then some (1000 + i) else none | none => none
+    order := r.order
+    desc := fun i => desc.getD i []
+    anc := fun i => anc.getD i [] }
+
+/-- materialise a state so that look-ups stay O(1) along the history (cf. drivers/C01.lean) -/
+def normStN (n : Nat) (s : State.St Nat) : State.St Nat :=
+  let arr := (Array.range n).map s.vals
+  { s with vals := fun i => match arr[i]? with | some v => v | none => none }
+
+open LeaspyVerif.State LeaspyVerif.Footprint in
+def evTarget : Ev Nat Unit → Option Nat
+  | .op o => some (target o)
+  | .havoc sid _ => some sid
+  | _ => none
+
+open LeaspyVerif.State LeaspyVerif.Footprint in
+def replayRun (g : Graph Nat) (w : Footprint.World Nat) (evs : List (Ev Nat Unit)) : Footprint.World Nat :=
+  evs.foldl (fun w e =>
+    let w' := stepEv g (fun _ o _ => o) w e
+    match evTarget e with
+    | some sid =>
+      match w'.store sid with
+      | some s =>
+        let s' := normStN g.n s
+        let table := ((List.range (sid + 1)).map w'.store).toArray.set! sid (some s')
+        -- states are few: keep the store as a short closure chain over a materialised prefix
+        { w' with store := fun k => if k ≤ sid then table.getD k none else w'.store k }
+      | none => w'
+    | none => w') w
+
+open LeaspyVerif.State LeaspyVerif.Footprint in
+def handleReplay (args : List String) : Option String := do
+  let call ← (kv args "call") >>= parseCall
+  let nodes ← (splitNE (← kv args "nodes") "/").mapM parseRNode
+  let cls ← parseClasses args
+  let (evs, _) ← parseEvents (splitNE (← kv args "ops") ";")
+  let dg := Dag.Graph.ofLists (nodes.map RNode.parents)
+  match Dag.build dg with
+  | .error _ => some "err:dag"
+  | .ok r =>
+    let g := mkReplayGraph nodes r
+    let n := g.n
+    -- a fitted model: every independent variable holds a value, derived values not cached yet, a pending fork on node 0
+    let s0 : St Nat := normStN n
+      { vals := fun i => match g.kind i with | .indep _ => some (100 + i) | .linked => none
+        fork := none, mode := true }
+    let w0 : Footprint.World Nat := { store := fun k => if k = 0 then some s0 else none, bound := 0, attrs := fun _ => none }
+    let w1 := replayRun g w0 evs
+    let isMcmc := match call with | .persoMean _ _ | .persoMode _ _ => true | _ => false
+    let ok : Bool :=
+      if isMcmc then
+        match w1.store w1.bound with
+        | some s1 => cls.prot.all (fun p => s1.vals p == s0.vals p) && cls.resid.all (fun i => (s1.vals i).isNone)
+                      && (w1.attrs 0).isNone
+        | none => false
+      else
+        match w1.store 0 with
+        | some s1 =>
+          w1.bound == 0 && (w1.attrs 0).isNone && s1.mode == s0.mode && s1.fork.isNone
+            && (List.range n).all (fun j => match g.kind j with
+                | .indep _ => s1.vals j == s0.vals j
+                | .linked => (s0.vals j).isNone || s1.vals j == s0.vals j)
+        | none => false
+    some s!"conc={fmtBool ok}"
+
 def handle (line : String) : String :=
   match line.splitOn " " with
   | "seq" :: args =>
@@ -48,6 +258,8 @@ def handle (line : String) : String :=
       let r := stepAll sh w0 ops
       some s!"res={fmtList (fun (x : Bool × String × Bool) => fmtBool x.1) r} same={fmtList (fun (x : Bool × String × Bool) => x.2.1) r} core={fmtList (fun (x : Bool × String × Bool) => fmtBool x.2.2) r}"
       ).getD "bad-request"
+  | "footprint" :: args => (handleFootprint args).getD "bad-request"
+  | "replay" :: args => (handleReplay args).getD "bad-request"
   | _ => "bad-request"
 
 def main : IO Unit := loop handle
